@@ -167,6 +167,14 @@ def block_done_siblings(ck, P):
         ck.decide(not leak, R, name + ":BlockDone", "reached only through a block flush or with an empty symbol buffer",
                   "%s can return BlockDone with symbols still buffered (no flush_block_only and no empty-buffer test on some path): a "
                   "sync/full flush would then not cover all input so far" % name, where(fn))
+        # the emptiness test must see every symbol: no tally/emit may follow it
+        tallies = {c.bb for c in fn.live_calls(r"State::tally_(lit|dist)$|BitWriter::emit_(lit|dist|dist_static)$")}
+        for c in fn.live_calls(r"SymBuf::is_empty$"):
+            after = fn.reach_from(c.target) if c.target is not None else set()
+            stale = sorted(after & tallies)
+            ck.decide(not stale, R, name + ":emptiness-fresh", "sym_buf.is_empty() is evaluated after the last symbol was tallied",
+                      "%s evaluates `sym_buf.is_empty()` and then still tallies a symbol (the deferred literal): the decision not to flush is "
+                      "taken on stale information and the flush marker is emitted without that symbol" % name, where(fn, c.line))
         if name == "deflate_stored":
             # FinishDone only when the last stored block was written
             okf = all(any(s.kind == "truth" and s.truth is True and "last" in s.names for s in shape.dominating_sigs(fn, b)) for b in fin)
